@@ -227,10 +227,15 @@ def sec_collected_rollout(ck, S_=2):
     from jaxsmt import concrete as cc
     from props.C04 import GAMMA, OnPolicyStep, empty_callback, find, make, world_of
     from props.rollout_ref import keys_of, onpolicy_step
-    from lerax.algorithm import PPO
-    for kind in ("discrete",):
+    from lerax.algorithm import A2C, PPO, REINFORCE
+    kind = "discrete"
+    # every on-policy learner, with the options that post-process advantages switched on (the STORED estimates must be the GAE estimates whatever the
+    # loss does with them afterwards)
+    algos = [("", PPO(num_envs=1, num_steps=S_, num_batches=1, num_epochs=1, gamma=GAMMA, gae_lambda=0.5)),
+             (",algo=A2C(normalize_advantages=True)", A2C(num_envs=1, num_steps=S_, gamma=GAMMA, gae_lambda=0.5, normalize_advantages=True)),
+             (",algo=REINFORCE(normalize_advantages=True)", REINFORCE(num_envs=1, num_steps=S_, gamma=GAMMA, normalize_advantages=True))]
+    for atag, algo in algos:
         env, pol = make(kind, False, True)
-        algo = PPO(num_envs=1, num_steps=S_, num_batches=1, num_epochs=1, gamma=GAMMA, gae_lambda=0.5)
         cb = empty_callback()
         st = OnPolicyStep.example(env, pol, cb)
 
@@ -250,7 +255,7 @@ def sec_collected_rollout(ck, S_=2):
         s = find(S, "st_env_state_env_state_s")
         c = [find(S, "st_env_state_step_count")[()]]
         h = S["st_policy_state_h"]
-        g, lam = Fraction(GAMMA), Fraction(1, 2)
+        g, lam = Fraction(GAMMA), Fraction(float(algo.gae_lambda))
         rs, vs, ds = [], [], []
         for t in range(S_):
             K = {"O": kO[2 * t], "B": kO[2 * t + 1], "A": kAV[t], "T": kT[t], "R": kR[t], "Term": kTerm[t], "I": kI[t], "P": kP[t]}
@@ -279,8 +284,9 @@ def sec_collected_rollout(ck, S_=2):
             want_adv.insert(0, a_t)
             nxt = a_t
         orc = {"adv": np.array(want_adv, dtype=object)}
-        ck.prove(f"gae.collected_rollout_cut_at_episode_ends@S={S_}", A, conj(gs), replay=lambda res: cc.replay_outputs(tr, S, res, uf_apps=it.uf_apps, oracle=orc))
-        ck.witness("witness.truncation_inside_rollout", A + [ds[0], core.neg(w.env.terminal(onpolicy_step(w, find(S, "st_env_state_env_state_s"), [find(S, "st_env_state_step_count")[()]], S["st_policy_state_h"],
+        ck.prove(f"gae.collected_rollout_cut_at_episode_ends@S={S_}{atag}", A, conj(gs), replay=lambda res: cc.replay_outputs(tr, S, res, uf_apps=it.uf_apps, oracle=orc))
+        if not atag:
+          ck.witness("witness.truncation_inside_rollout", A + [ds[0], core.neg(w.env.terminal(onpolicy_step(w, find(S, "st_env_state_env_state_s"), [find(S, "st_env_state_step_count")[()]], S["st_policy_state_h"],
                    {"O": kO[0], "B": kO[1], "A": kAV[0], "T": kT[0], "R": kR[0], "Term": kTerm[0], "I": kI[0], "P": kP[0]}, g)["s2"], kTerm[0]))])
 
 
